@@ -197,6 +197,13 @@ fixed("F4", ["C05", "C06", "C20"], "097a7ec",
            "t1: Lock(m=1); Incr(m=1); Lock(m=0); Unlock(m=0); Unlock(m=1); ArcCount(x=0)", arc_owner=[0], x={"mode": "own_failure_or_none"},
            cfg={"max_permutations": 3000, "checkpoint_interval": 1}))
 
+known("F13b", SCP + ["C15"],
+      "same root cause as F13, reached through the spurious return of Notify::wait (which yields): after the spurious return the "
+      "thread is deprioritised until another thread has taken a step, so its following operation can never be ordered before the "
+      "dependent operation of that thread: t0: lock; incr; notify; unlock || t1: nf.wait; lock; incr; unlock never lets t1 take the lock first",
+      ["missing_outcome", "missed_deadlock", "missed_leak", "missed_race", "bounded_only_failure", "bounded_result_not_in_unbounded"], "op_after_spurious_wait",
+      case("C08", "known", "t0: spawn(1); Lock(m=0); Incr(m=0); NfNotify(n=0); Unlock(m=0); join(1) || t1: NfWait(n=0); Lock(m=0); Incr(m=0); Unlock(m=0)"))
+
 if __name__ == "__main__":
     out = os.path.join(os.path.dirname(os.path.abspath(__file__)), "..", "known_findings.json")
     json.dump({"findings": F}, open(out, "w"), indent=1)
